@@ -765,3 +765,27 @@ def _m_sign_b(mod):
         return False
 
     return mod if replace_in_func(mod, "AliasRelation.add", edit) else None
+
+
+@SPEC.mutant("copy shares the canonical map", AR, "R17.8", "_canonical_variables_map")
+def _m_shared_map(mod):
+    def edit(fn):
+        for n in ast.walk(fn):
+            if isinstance(n, ast.Assign) and norm(n.targets[0]).endswith("._canonical_variables_map") and isinstance(n.value, ast.Call):
+                n.value = n.value.func.value
+                return True
+        return False
+
+    return mod if replace_in_func(mod, "AliasRelation.copy", edit) else None
+
+
+@SPEC.mutant("remove guards on the member map", AR, "R17.9", "known to be canonical")
+def _m_remove_guard(mod):
+    def edit(fn):
+        for n in ast.walk(fn):
+            if isinstance(n, ast.Compare) and norm(n.comparators[0]) == "self._canonical_variables":
+                n.comparators[0] = ast.parse("self._canonical_variables_map", mode="eval").body
+                return True
+        return False
+
+    return mod if replace_in_func(mod, "AliasRelation.remove", edit) else None
